@@ -293,8 +293,163 @@ def loop (cap : Nat) (succ : Nat → Bool) (obs : Nat → Obs α) : Nat → Ctl 
       if r.any then .stopped c' r else loop cap succ obs fuel c'
     else .failed c
 
+/-- the counters after `k` passes through the loop body -/
+def ctlAt (cap : Nat) (obs : Nat → Obs α) : Nat → Ctl
+  | 0 => { k := 0, top := 0, neutral := 0 }
+  | k+1 => (stepControl cap (ctlAt cap obs k) (obs k)).1
+
+/-- the five stop tests evaluated in pass `k` -/
+def testsAt (cap : Nat) (obs : Nat → Obs α) (k : Nat) : Reasons := (stepControl cap (ctlAt cap obs k) (obs k)).2
+
 def calculate (cap : Nat) (succ : Nat → Bool) (obs : Nat → Obs α) : Outcome :=
   loop cap succ obs (cap + 1) { k := 0, top := 0, neutral := 0 }
+
+
+/-! ## PART 4 — the closures `lmp.derivs` consumes, transcribed so that they can be tied to the code
+    independently of the assembly: the derived element quantities of `LagElement.update`
+    (l.3165-3187), `Particle.track` (p_fac, l.2492-2511), the buoyant force (l.3231-3245),
+    `dispersed_phases.shear_entrainment` (l.1148-1209), `lmp.entrainment` (l.459-560),
+    `lmp.local_coords` / `lmp.track_particles` (l.563-694).  Library values (seawater.density,
+    the ambient profile, dbm slip velocity / particle density) enter as arguments. -/
+
+structure ElemD (α : Type) where
+  S : α
+  T : α
+  u : α
+  v : α
+  w : α
+  hvel : α
+  V : α
+  h : α
+  b : α
+  sin_p : α
+  cos_p : α
+  sin_t : α
+  cos_t : α
+  phi : α
+  theta : α
+
+/-- l.3165-3187; `rho = seawater.density(T, S, Pa)` is supplied -/
+def elemDerived (M Se He Jx Jy Jz H rho cpw pi : α) : ElemD α :=
+  let u := Jx / M
+  let v := Jy / M
+  let w := Jz / M
+  let hvel := Num.sqrt (Num.npow u 2 + Num.npow v 2)
+  let V := Num.sqrt (Num.npow hvel 2 + Num.npow w 2)
+  let h := H * V
+  let isz : Bool := decide (hvel ≤ 0 ∧ 0 ≤ hvel)
+  { S := Se / M, T := He / (M * cpw), u := u, v := v, w := w, hvel := hvel, V := V, h := h,
+    b := Num.sqrt (M / ((rho * pi) * h)),
+    sin_p := w / V, cos_p := hvel / V,
+    sin_t := if isz then 0 else v / hvel,
+    cos_t := if isz then 1 else u / hvel,
+    phi := Num.atan2 w hvel, theta := Num.atan2 v u }
+
+/-- `np.sign` as a number (NaN not modelled) -/
+def sgn (x : α) : α := if x < 0 then -1 else if 0 < x then 1 else 0
+
+/-- `dispersed_phases.shear_entrainment` -/
+def shearEntrainment (U Us rho rho_a b sin_p g alpha_j alpha_Fr : α) : α :=
+  let alpha_p : α :=
+    if rho_a ≤ rho ∧ rho ≤ rho_a then 0
+    else
+      let F1 := (2 * Num.abs (U - Us)) /
+        Num.sqrt ((((((g * Num.abs (rho_a - rho)) * (1 + Num.npow 1.2 2)) / Num.npow 1.2 2) / rho_a) * b) / Num.sqrt 2)
+      if alpha_Fr / 0.028 < Num.abs (Num.npow F1 2 / sin_p) then
+        (((-(sgn (rho_a - rho))) * alpha_Fr) * sin_p) / Num.npow F1 2
+      else
+        ((((-(0.083 - alpha_j)) / (alpha_Fr / 0.028)) * Num.npow F1 2) / sin_p) * sgn (rho_a - rho)
+  let den := Num.abs (U - Us) + U
+  if den ≤ 0 ∧ 0 ≤ den then Num.sqrt 2 * alpha_j
+  else (((Num.sqrt 2 * (alpha_j + alpha_p)) * 2) * U) / den
+
+/-- inputs of `lmp.entrainment`: current element, previous element, parameters -/
+structure EntIn (α : Type) where
+  ua : α
+  va : α
+  wa : α
+  phi : α
+  theta : α
+  V : α
+  rho : α
+  rho_a : α
+  b : α
+  h : α
+  sin_p : α
+  s : α
+  phi0 : α
+  theta0 : α
+  s0 : α
+  b0 : α
+  g : α
+  alpha_j : α
+  alpha_Fr : α
+  pi : α
+
+/-- shear entrainment `md_s` (l.497-521) -/
+def mdShear (i : EntIn α) : α :=
+  let Ua := Num.sqrt (Num.npow i.ua 2 + Num.npow i.va 2 + Num.npow i.wa 2)
+  let Phi_a := Num.atan2 i.wa (Num.sqrt (Num.npow i.ua 2 + Num.npow i.va 2))
+  let Theta_a := Num.atan2 i.va i.ua
+  let Us := (Ua * Num.cos (i.phi - Phi_a)) * Num.cos (i.theta - Theta_a)
+  let alpha_s := shearEntrainment i.V Us i.rho i.rho_a i.b i.sin_p i.g i.alpha_j i.alpha_Fr
+  ((i.rho_a * Num.abs (i.V - Us)) * alpha_s) * (((2 * i.pi) * i.b) * i.h)
+
+/-- forced entrainment `md_f` (l.523-550) -/
+def mdForced (i : EntIn α) : α :=
+  let Ua := Num.sqrt (Num.npow i.ua 2 + Num.npow i.va 2 + Num.npow i.wa 2)
+  let Phi_a := Num.atan2 i.wa (Num.sqrt (Num.npow i.ua 2 + Num.npow i.va 2))
+  let Theta_a := Num.atan2 i.va i.ua
+  let sin_t := Num.sin (i.theta - Theta_a)
+  let sin_p := Num.sin (i.phi - Phi_a)
+  let cos_t := Num.cos (i.theta - Theta_a)
+  let cos_p := Num.cos (i.phi - Phi_a)
+  let cos_t0 := Num.cos (i.theta0 - Theta_a)
+  let cos_p0 := Num.cos (i.phi0 - Phi_a)
+  let a1 := ((2 * i.b) * Num.sqrt ((Num.npow sin_p 2 + Num.npow sin_t 2) - Num.npow sin_p 2 * Num.npow sin_t 2)) * i.h
+  let small : Bool := decide ((i.s - i.s0) / i.b ≤ 1.e-3)
+  let a2 : α := if small then 0 else
+    (((((i.pi * i.b) * (i.b - i.b0)) / (i.s - i.s0)) * i.h) * cos_p) * cos_t
+  let a3 : α := if small then 0 else
+    ((((i.pi * Num.npow i.b 2) / 2) * (cos_p * cos_t - cos_p0 * cos_t0)) / (i.s - i.s0)) * i.h
+  let A : α := if Num.abs sin_t ≤ 1.e-9 ∧ Num.abs sin_p ≤ 1.e-9 then 0 else (a1 + a2) + a3
+  (i.rho_a * Ua) * A
+
+/-- `lmp.entrainment`: the maximum hypothesis (l.554-557) -/
+def entrainment (i : EntIn α) : α :=
+  if mdForced i < mdShear i then mdShear i else mdForced i
+
+/-- entrainment frequency (l.605-606) -/
+def feOf (md rho_a b h pi : α) : α := md / ((((2 * pi) * rho_a) * Num.npow b 2) * h)
+
+/-- slip velocity in local coordinates: `np.dot(local_coords, [0, 0, -us])` (l.622, l.682-691) -/
+def upOf (sin_p cos_p : α) (us : α) : List α :=
+  [(0 + 0) + sin_p * (-us), (0 + 0) + (-cos_p) * (-us), (0 + 0) + 0 * (-us)]
+
+/-- `dtp_dt[i]` (l.625-640) -/
+def dtpOf (V fe ds : α) (up : List α) (Xn Xm : α) (x0 x1 : List α) : α :=
+  let dsp := Num.sqrt ((Num.npow (x1.getD 0 0 - x0.getD 0 0) 2 + Num.npow (x1.getD 1 0 - x0.getD 1 0) 2)
+                + Num.npow (x1.getD 2 0 - x0.getD 2 0) 2)
+  let Vp := Num.sqrt ((Num.npow (up.getD 0 0 + V) 2 + Num.npow (up.getD 1 0 - fe * Xn) 2)
+                + Num.npow (up.getD 2 0 - fe * Xm) 2)
+  if Vp ≤ 0 ∧ 0 ≤ Vp then 0
+  else if ds ≤ 0 ∧ 0 ≤ ds then 1
+  else ((V / Vp) * dsp) / ds
+
+/-- `Particle.track` (l.2492-2511): buoyancy reduction factor of a particle; 0 once outside -/
+def pFac (integrate : Bool) (b Xl Xn Xm : α) : α :=
+  if integrate then
+    let lp := Num.sqrt ((Num.npow Xl 2 + Num.npow Xn 2) + Num.npow Xm 2)
+    let f := Num.npow (b - lp) 4 / Num.npow b 4
+    let f := if f < 0 then 0 else f
+    if b < lp then 0 else f
+  else 0
+
+/-- buoyant force of one particle class (l.3231-3242); `Mp` are the state masses `M_p[i]` -/
+def fbOf (rho rho_a rho_p nbe pfac : α) (Mp : List α) : α :=
+  let mp := Num.sum (Mp.map (fun m => m / nbe)) * nbe
+  if rho ≤ rho_p ∧ rho_p ≤ rho then 0
+  else (((rho / rho_p) * mp) * (rho_a - rho_p)) * pfac
 
 /-! ## line protocol -/
 section dispatch
@@ -351,6 +506,45 @@ def parseCorr : List Arg → Option (List (Particle Float) × List Float)
     | none => none
   | _ => none
 
+
+/-- per particle for `Lmp.closures`: `n:integrate v:[us,nbe,rho_p,Xl,Xn,Xm,x0,y0,z0,x1,y1,z1] v:M_p` -/
+def parseClos : List Arg → Option (List (Bool × List Float × List Float))
+  | [] => some []
+  | .n integ :: .v sc :: .v mp :: rest =>
+    match parseClos rest with
+    | some ps => some ((integ != 0, sc, mp) :: ps)
+    | none => none
+  | _ => none
+
+def closures (q1 q0 amb par : List Float) (ps : List (Bool × List Float × List Float)) : Option (List Arg) :=
+  match q1, q0, amb, par with
+  | [M, Se, He, Jx, Jy, Jz, H, _x, _y, _z, s], [M0, Se0, He0, Jx0, Jy0, Jz0, H0, _x0, _y0, _z0, s0],
+    [ua, va, wa, rho_a, rho, rho0], [cpw, pi, g, alpha_j, alpha_Fr] =>
+    let e1 := elemDerived M Se He Jx Jy Jz H rho cpw pi
+    let e0 := elemDerived M0 Se0 He0 Jx0 Jy0 Jz0 H0 rho0 cpw pi
+    let i : EntIn Float :=
+      { ua := ua, va := va, wa := wa, phi := e1.phi, theta := e1.theta, V := e1.V, rho := rho,
+        rho_a := rho_a, b := e1.b, h := e1.h, sin_p := e1.sin_p, s := s, phi0 := e0.phi, theta0 := e0.theta, s0 := s0,
+        b0 := e0.b, g := g, alpha_j := alpha_j, alpha_Fr := alpha_Fr, pi := pi }
+    let md := entrainment i
+    let fe := feOf md rho_a e1.b e1.h pi
+    let ds := s - s0
+    let per := ps.map (fun (integ, sc, mp) =>
+      let us := sc.getD 0 0
+      let up := upOf e1.sin_p e1.cos_p us
+      let dtp := dtpOf e1.V fe ds up (sc.getD 4 0) (sc.getD 5 0) ((sc.drop 6).take 3) ((sc.drop 9).take 3)
+      let pf := pFac integ e1.b (sc.getD 3 0) (sc.getD 4 0) (sc.getD 5 0)
+      let fb := fbOf rho rho_a (sc.getD 2 0) (sc.getD 1 0) pf mp
+      (up, dtp, pf, fb))
+    some [.v [e1.S, e1.T, e1.u, e1.v, e1.w, e1.hvel, e1.V, e1.h, e1.b, e1.sin_p, e1.cos_p, e1.sin_t, e1.cos_t, e1.phi, e1.theta],
+          .v [mdShear i, mdForced i, md, fe],
+          .v (per.map (fun x => x.2.1)),
+          .v (per.flatMap (fun x => x.1)),
+          .v (per.map (fun x => x.2.2.1)),
+          .v (per.map (fun x => x.2.2.2)),
+          .s (Num.sum (per.map (fun x => x.2.2.2)))]
+  | _, _, _, _ => none
+
 def parseObs : List Arg → Option (List (Obs Float))
   | [] => some []
   | .v [Jz0, Jz1, dr0, dr1, s, sPrev, z, D, sdMax] :: rest =>
@@ -373,6 +567,19 @@ def dispatch : Dispatch := fun name args =>
     match mkEnv s nchems cc ca cpe kb ct, parseParticles rest with
     | some e, some ps => some [.v (derivs e ps)]
     | _, _ => none
+  -- Lmp.closures v:q[0:11] v:q_prev[0:11] v:[ua,va,wa,rho_a,rho,rho_prev] v:[cpw,pi,g,alpha_j,alpha_Fr] [particle]*
+  --   -> v:element-derived v:[md_s,md_f,md,fe] v:dtp v:up(3 per particle) v:p_fac v:fb Fb
+  | "Lmp.closures", .v q1 :: .v q0 :: .v amb :: .v par :: rest =>
+    match parseClos rest with
+    | some ps => closures q1 q0 amb par ps
+    | none => none
+  -- Lmp.calculateConst n:cap n:nsucc v:obs  (the same observation at every iteration)
+  | "Lmp.calculateConst", [.n cap, .n nsucc, .v [Jz0, Jz1, dr0, dr1, s, sPrev, z, D, sdMax]] =>
+    let o : Obs Float := { Jz0 := Jz0, Jz1 := Jz1, dr0 := dr0, dr1 := dr1, s := s, sPrev := sPrev, z := z, D := D, sdMax := sdMax }
+    match calculate cap (fun k => decide (k < nsucc)) (fun _ => o) with
+    | .stopped c r => some [.t "stopped", .n c.k, .n c.top, .n c.neutral, .n (reasonsCode r)]
+    | .failed c => some [.t "failed", .n c.k, .n c.top, .n c.neutral, .n 0]
+    | .outOfFuel c => some [.t "fuel", .n c.k, .n c.top, .n c.neutral, .n 0]
   -- Lmp.totals v:vector(full) n:c [short particles]  ->  compoundTotal c, heatTotal
   | "Lmp.totals", .v q :: .n c :: rest =>
     match parseShort rest with
